@@ -255,6 +255,14 @@ func (r *Runner) Open(b Block) (st *Step, ok bool) {
 			rec.Sender = t.Sender()
 			rec.NonceBefore = n.App.CurrentState().Accounts().GetNonce(rec.Sender)
 			bytes = renderCached(t, rec.NonceBefore)
+			if t.StealSig {
+				forged := stealSignature(bytes, rec.Sender, r.delivered)
+				if forged == nil {
+					st.Skipped = append(st.Skipped, ti)
+					continue
+				}
+				bytes = forged
+			}
 		}
 		rec.Bytes = bytes
 		if fr, ok := r.firstResp[string(bytes)]; ok {
